@@ -70,6 +70,9 @@ TRANSLATORS = [
     ("genkinds", "genkinds", ["-repo", REPO, "-out", os.path.join(COQ, "Gen")]),
     ("sharedgen", "sharedgen", ["-repo", REPO, "-out", os.path.join(COQ, "Gen"),
                                 "-report", os.path.join(BUILD, "sharedgen_report.json")]),
+    ("readeruse", "readeruse", ["-repo", REPO, "-out", os.path.join(COQ, "Gen")]),
+    ("posmsggen", "posmsggen", ["-repo", REPO, "-out", os.path.join(COQ, "Gen")]),
+    ("posreadgen", "posreadgen", ["-repo", REPO, "-out", os.path.join(COQ, "Gen"), "-report", os.path.join(BUILD, "posreadgen_report.json")]),
     ("skelgen", "skelgen", ["-repo", REPO, "-out", os.path.join(COQ, "Gen"),
                             "-report", os.path.join(BUILD, "skelgen_report.json")]),
 ]
@@ -124,10 +127,22 @@ def coq_make(targets, timeout=3000):
 
 
 def vo_ok(rel_v):
-    """Is the .vo of this .v present and newer than its source?"""
+    """Is the .vo of this .v present and at least as new as its own source and as the .vo of everything it
+    depends on (a property file whose rebuild failed after a dependency changed is NOT ok)?"""
     v = os.path.join(COQ, rel_v)
     vo = v + "o"
-    return os.path.exists(vo) and os.path.getmtime(vo) >= os.path.getmtime(v)
+    if not os.path.exists(vo):
+        return False
+    t = os.path.getmtime(vo)
+    if t < os.path.getmtime(v):
+        return False
+    for dep in dep_closure([rel_v]):
+        if dep == rel_v:
+            continue
+        dvo = os.path.join(COQ, dep) + "o"
+        if not os.path.exists(dvo) or os.path.getmtime(dvo) > t + 1e-6:
+            return False
+    return True
 
 
 def build_go(pkgs=("dch",), race=False):
@@ -453,3 +468,33 @@ def itertools_zip3(fa, fb, fc):
     import itertools
     for a, b, c in itertools.zip_longest(fa, fb, fc, fillvalue="<missing>\n"):
         yield a.rstrip("\n"), b.rstrip("\n"), c.rstrip("\n")
+
+
+def run_generator_compare(cmd, timeout=3000):
+    """Runs one of the checks/gen_*_cases.py scripts in --run mode. Returns (rc, output, summary dict of
+    every name=int pair on the last line, list of report blocks)."""
+    rc, out = sh(cmd, timeout=timeout)
+    lines = out.strip().splitlines()
+    summary = {}
+    if lines:
+        for m in re.finditer(r"([A-Za-z_/!= -]*?[A-Za-z_]+)=(\d+)", lines[-1]):
+            summary[m.group(1).strip()] = int(m.group(2))
+    blocks = re.split(r"\n(?=[A-Z][A-Z!=-]+[A-Z]\s)", "\n" + "\n".join(lines[:-1]))
+    blocks = [b.strip() for b in blocks if b.strip()]
+    return rc, out, summary, blocks
+
+
+def build_topic(go_pkgs=(), drivers=()):
+    """Build Go harness programs and extraction drivers; returns list of broken obligations."""
+    broken = []
+    with Lock():
+        g = build_go(go_pkgs)
+        for k, (rc, out) in g.items():
+            if rc != 0:
+                broken.append({"obligation": "build:go-" + k, "detail": out[-1500:]})
+        for topic, base in drivers:
+            ex = [os.path.basename(x) for x in glob.glob(os.path.join(ROOT, "driver", topic, "*.v"))]
+            rc, out = build_driver(topic, base, ex[0] if ex else "Extract.v")
+            if rc != 0:
+                broken.append({"obligation": "build:driver-" + topic, "detail": out[-1500:]})
+    return broken
